@@ -39,6 +39,8 @@ func (f FlowSpec) String() string {
 //	Es   enter_flow(self)            Est  enter_flow(self, terminal)
 //	Eo   enter_flow(other flow)      Eot  enter_flow(other, terminal)
 //	Em   enter_flow(missing flow) - the only action that fails a run
+//	EsEm / EoEm   two actions: enter_flow(self / other), then enter_flow(missing flow): the run fails
+//	     after it has pushed a flow
 //	W    switch on @input.text with msg wait: [has "a" -> exit0, default -> exit1]
 //	WT   same with a timeout category (timeout -> exit1)
 //	S    switch on @input.text without wait (same cases)
@@ -46,7 +48,7 @@ func (f FlowSpec) String() string {
 //	D    dial wait (voice): [answered -> exit0, default -> exit1]
 //	N    no actions, no router, 1 exit
 var KindExits = map[string]int{
-	"A": 1, "AR": 1, "Es": 1, "Est": 1, "Eo": 1, "Eot": 1, "Em": 1, "W": 2, "WT": 2, "S": 2, "R": 2, "D": 2, "N": 1,
+	"A": 1, "AR": 1, "Es": 1, "Est": 1, "Eo": 1, "Eot": 1, "Em": 1, "EsEm": 1, "EoEm": 1, "W": 2, "WT": 2, "S": 2, "R": 2, "D": 2, "N": 1,
 }
 
 // ActionSets lets a check add node kinds "A:<name>": a node with the given action list and one
@@ -71,7 +73,7 @@ func Exits(kind string) int {
 // RefsOther reports whether the flow enters the "other" flow.
 func (f FlowSpec) RefsOther() bool {
 	for _, n := range f.Nodes {
-		if n.Kind == "Eo" || n.Kind == "Eot" {
+		if n.Kind == "Eo" || n.Kind == "Eot" || n.Kind == "EoEm" {
 			return true
 		}
 	}
@@ -189,6 +191,13 @@ func renderNode(f, i int, n Node, other int) J {
 		enter(FlowUUID(other), true)
 	case "Em":
 		enter(MissingFlowUUID, false)
+	case "EsEm", "EoEm":
+		target := FlowUUID(f)
+		if n.Kind == "EoEm" {
+			target = FlowUUID(other)
+		}
+		enter(target, false)
+		node["actions"] = append(node["actions"].([]any), J{"uuid": actUUID(f, i, 1), "type": "enter_flow", "flow": J{"uuid": MissingFlowUUID, "name": "Missing"}})
 	case "W":
 		node["router"] = switchRouter(f, i, J{"type": "msg"}, "Answer", false)
 	case "WT":
